@@ -207,6 +207,7 @@ let run toks =
       "ok " ^ bool_s (List.mem (bx tok) (candidates (hash_of t) (bx k) (if fp = "none" then None else Some (bx fp)) (zd now) (zd i)))
   | ["tostring"; z] -> hx (to_string (zd z))
   | "args" :: rest -> verdict_s (args_run rest)
+  | "oom" :: _ -> "ref=ok every-failure=bad_alloc no-leak state-ok usable"   (* C20: the only acceptable summary of an allocation-failure sweep; the allowed object states are those of Properties_C20 *)
   | "needles" :: api :: a ->
       (* the derived values that must never be found in released memory: contents of every temporary of the inventory (>= 8 bytes, deduplicated) *)
       let cs = List.filter (fun c -> List.length c >= 8) (List.map (fun r -> r.r_content) (rel_of api a)) in
